@@ -147,7 +147,7 @@ SINGLE_ENUM_ATTRS = {
 }
 DATE_ATTRS = ["Initial Date", "Activation Date", "Process Start Date", "Protect Stop Date",
               "Deactivation Date", "Destroy Date", "Compromise Occurrence Date",
-              "Compromise Date", "Archive Date", "Last Change Date"]
+              "Compromise Date", "Archive Date", "Last Change Date", "Original Creation Date"]
 BOOL_ATTRS = ["Sensitive", "Fresh", "Always Sensitive", "Extractable", "Never Extractable"]
 INT_ATTRS = ["Cryptographic Length", "Certificate Length", "Lease Time"]
 TEXT_ATTRS = ["Unique Identifier", "Operation Policy Name", "Object Group", "Contact Information"]
@@ -262,6 +262,15 @@ def _wrapping(w):
         mac_signature=w.get("mac"),
         iv_counter_nonce=w.get("iv"),
         encoding_option=E(enums.EncodingOption, w.get("enc")))
+
+
+BIG_PRIME = 2 ** 64 + 13           # a prime field size beyond a signed 64-bit integer (field sizes are Big Integers)
+SMALL_PRIME = 257
+
+
+def prime_class(v):
+    """The specification's view of a split key's prime field size: absent / fits 64 bits / does not."""
+    return "NA" if v is None else ("PRIME" if -2 ** 63 <= v < 2 ** 63 else "PRIME_BIG")
 
 
 def build_secret(o, intern):
@@ -791,6 +800,7 @@ def read_state(path, intern):
                                 "_split_key_method,_prime_field_size from split_keys where uid=?", (uid,)).fetchone()
                 if r:
                     o["split"] = list(r)
+                    o["sub"] = prime_class(r[4])
             o["names"] = [x[0] for x in cur.execute(
                 "select name from managed_object_names where mo_uid=? order by id", (uid,))]
             o["groups"] = [x[0] for x in cur.execute(
